@@ -54,6 +54,10 @@ class Sel:
     def __init__(self, n):
         self.n = n
 
+    def __repr__(self):
+        # (what a transport's repr may well hold: a URL-quoted peer name, a progress figure, braces)
+        return "<Sel %d peer=h%%3A80 100%% done {x} %%s>" % self.n
+
     def fileno(self):
         return -1
 
